@@ -99,7 +99,7 @@ def d2b(chk, prog):
     fi = prog.fn(f"{ACC}.get_regions")
     tb = Table(chk, "non-n-runs", "get_regions on literal FASTA texts (sequences over {A,N} of length 0..6 x line widths 1..4 and unbroken; two- and three-record files)", fi.loc(), fi.qn)
     files = []
-    seqs = [""] + ["".join(p) for n in range(1, 7) for p in itertools.product("AN", repeat=n)]
+    seqs = [""] + ["".join(p) for n in range(1, 7 if chk.tier != "thorough" else 10) for p in itertools.product("AN", repeat=n)]
     for sq in seqs:
         for w in (1, 2, 3, 4, 60):
             if w != 60 and w >= max(len(sq), 1) and w != 1:
